@@ -131,3 +131,43 @@ package xpkg
 //@ site strings.TrimRight($s, $set)
 //@   assert [C20:only-the-trailing-delimiter-is-trimmed] $s == $cut && $set == identifierDelimeters
 //@ ensures [C20:source-is-the-reference-without-its-identifier] result == $src
+
+// C15 (a package is established only on a Crossplane its constraint admits, unless the user waived
+// it): the compatibility gate passes only for a package that states no constraint, or whose stated
+// constraint the running version satisfies - a constraint that cannot be evaluated fails the gate.
+//@ func xpkg.PackageCrossplaneCompatible$1
+//@ props C15
+//@ ghost asked bool = false
+//@ ghost admitted bool = false
+//@ let $pkg = result xpkg.TryConvertToPkg
+//@ optional site (version.Operations).InConstraints(_, $c) as ask
+//@   assert [C15:the-packages-own-constraint-is-evaluated] $pkg.GetCrossplaneConstraints() != nil && $c == $pkg.GetCrossplaneConstraints().Version
+//@   update asked = true
+//@   update admitted = err == nil && result
+//@ ensures [C15:compatible-only-without-a-constraint-or-with-one-the-running-version-satisfies] result == nil ==> (!asked || admitted)
+//@ ensures [C15:a-stated-constraint-is-always-evaluated] result == nil && $pkg != nil && $pkg.GetCrossplaneConstraints() != nil ==> asked
+
+// C14 (the revision for a source is named after its digest): the friendly identifier is the DNS
+// label form of "<name, at most 50 characters>-<digest, at most 12 characters>".
+//@ func xpkg.truncate
+//@ props C14
+//@ sweep
+//@ frame fresh-only
+//@ requires num >= 0
+//@ ensures [C14:short-strings-are-kept-long-ones-cut-at-the-limit] (len(str) <= num ==> result == str) && (len(str) > num && num >= 0 ==> result == substr(str, 0, num))
+
+//@ func xpkg.FriendlyID
+//@ props C14
+//@ frame fresh-only
+//@ let $n = result 0 xpkg.truncate
+//@ let $joined = result strings.Join
+//@ let $label = result xpkg.ToDNSLabel
+//@ ghost cuts int = 0
+//@ site xpkg.truncate($s, $k) as cut
+//@   assert [C14:name-cut-at-50-digest-cut-at-12] (cuts == 0 && $s == name && $k == 50) || (cuts == 1 && $s == hash && $k == 12)
+//@   update cuts = cuts + 1
+//@ site strings.Join($parts, $sep)
+//@   assert [C14:name-and-digest-joined-by-a-dash] $sep == "-" && len($parts) == 2 && cuts == 2
+//@ site xpkg.ToDNSLabel($s)
+//@   assert [C14:the-joined-identifier-is-made-a-dns-label] $s == $joined
+//@ ensures [C14:friendly-id-is-the-dns-label-of-name-dash-digest] result == $label
